@@ -80,8 +80,20 @@ func VxC08_Pool() {
 	p := GetParser()
 	vxDirty(p)
 	p.ApplyOptions(func(q *Parser) { q.strict = vx.Bool(); q.dialect = vxDialect() })
-	toks := []token.Token{VxStmtTable.Tok(), VxStmtTable.Tok(), VxEOF}
-	_ = vxRunEP(p, vx.Choice(epCount), toks)
+	// what the holder did with it: parsed, parsed and released, only configured it, or parsed nothing
+	did := vx.Choice(4)
+	switch did {
+	case 0, 1:
+		toks := []token.Token{VxStmtTable.Tok(), VxStmtTable.Tok(), VxEOF}
+		_ = vxRunEP(p, vx.Choice(epCount), toks)
+		if did == 1 {
+			p.Release()
+		}
+	case 2:
+		p.tokens, p.currentPos = nil, 0 // configured, never used
+	case 3:
+		_, _ = p.Parse(nil)
+	}
 	how := vx.Choice(3)
 	var q *Parser
 	switch how {
@@ -95,7 +107,7 @@ func VxC08_Pool() {
 		p.Release()
 		q = p
 	}
-	vx.Notef("how=%d", how)
+	vx.Notef("did=%d how=%d", did, how)
 	fresh := &Parser{}
 	if how == 2 {
 		// Release is documented to clear per-parse state only; configuration is the holder's
